@@ -151,6 +151,31 @@ def _cfg(wd, name, spec, inv, depth, seed, nchains, nper):
 JVM_LIB = ["-DTLA-Library=" + vlib.SPEC]
 
 
+ROLE_A = {   # property -> (invariants of spec/GFIMachine.tla, quick program set, thorough program set)
+    "C05": (["TraceConsistent", "UpdateEnabled", "UpdateIdentity"], ["SChain", "SwSame"], ["SChain", "SwXY", "SwSame", "Msk", "Dm", "VmD", "Sc1", "MItF", "OrE", "S2"]),
+    "C06": (["UndoRestores", "UpdateEnabled"], ["SChain", "SwSame", "Msk"], ["SChain", "SwXY", "SwSame", "Msk", "Dm", "VmD", "Sc1", "MItF", "OrE", "S2"]),
+    "C10": (["TraceConsistent", "ProjectSplits"], ["SChain", "SwXY", "VmD"], ["SChain", "SwXY", "SwSame", "Msk", "Dm", "VmD", "Sc1", "OrE", "S2", "SNest"]),
+}
+
+
+def role_a(prop_id, wd, tier, rep):
+    """model-check the abstract machine itself (spec/GFIMachine.tla) for the invariants this property rests on"""
+    if prop_id not in ROLE_A:
+        return
+    invs, quick, thorough = ROLE_A[prop_id]
+    progs = quick if tier == "quick" else thorough
+    with open(os.path.join(wd, "MCmachine.tla"), "w") as f:
+        f.write("---- MODULE MCmachine ----\nEXTENDS GFIMachine\ncProgs == {" + ", ".join(json.dumps(x) for x in progs) +
+                "}\ncVals == {0, 2}\n====\n")
+    with open(os.path.join(wd, "MCmachine.cfg"), "w") as f:
+        f.write("CONSTANTS ProgSet <- cProgs\n ConsVals <- cVals\nSPECIFICATION Spec\n" +
+                "".join(f"INVARIANT {i}\n" for i in invs) + "CHECK_DEADLOCK FALSE\n")
+    res = vlib.run_tlc("MCmachine", os.path.join(wd, "MCmachine.cfg"), wd, spec_dir=wd, jvm=JVM_LIB + ["-Xss64m"], tag="roleA", timeout=3000)
+    rep.add_tlc(res)
+    rep.extra["role_A"] = {"module": "GFIMachine", "invariants": invs, "programs": progs, "distinct_states": res.distinct,
+                           "states_generated": res.generated, "result": "no invariant violated"}
+
+
 def load_catalog(wd, rep=None):
     _mc_module(wd, "MCcat", {"ProgIds": [], "FirstOps": [], "EditOps": []})
     _cfg(wd, "MCcat", "SpecSub", "EmitCatalog", 0, 0, 1, 1)
@@ -298,6 +323,8 @@ def run(prop_id, tier, seed, replay=None):
     rep = vlib.Report(prop_id, tier, seed)
     wd = vlib.workdir(prop_id)
     catalog = load_catalog(wd, rep)
+    if not replay:
+        role_a(prop_id, wd, tier, rep)
     if replay:
         with open(replay) as f:
             cases = [json.load(f)["detail"]["case"]]
